@@ -3,11 +3,11 @@
    after a scheme is ensured.  PARTIAL: that this equals the host of normalize_url / fingerprint_url
    and that the stem variants are the stems of the url-level results is decided by the harness. *)
 From Coq Require Import String.
-From Coq Require Import List NArith.
+From Coq Require Import List NArith Bool.
 Local Open Scope string_scope.
 Local Open Scope list_scope.
 Import ListNotations.
-From UV Require Import Py.Val Py.Str Py.UrlLib Ural.Utils Ural.Canonicalize Ural.Normalize Ural.SuffixTrie Proofs.NormFacts.
+From UV Require Import Py.Val Py.Str Py.UrlLib Ural.Utils Ural.Canonicalize Ural.Normalize Ural.SuffixTrie Proofs.NormFacts Proofs.ControlFacts.
 
 Theorem C07_get_normalized_hostname : forall e u amp,
   get_normalized_hostname e u amp false =
@@ -33,5 +33,14 @@ Theorem C07_get_fingerprinted_hostname : forall e t u ss,
   end.
 Proof. exact get_fingerprinted_hostname_spec. Qed.
 
+(* whitespace and control characters around the url (in any order) do not matter to the helper, as they do not to
+   normalize_url *)
+Theorem C07_surrounding_junk_irrelevant : forall e a u b amp,
+  forallb (fun c => is_control_char c || isspace_c c) a = true ->
+  forallb (fun c => is_control_char c || isspace_c c) b = true ->
+  get_normalized_hostname e (a ++ u ++ b) amp false = get_normalized_hostname e u amp false.
+Proof. exact normalized_hostname_surrounding_junk. Qed.
+
+Print Assumptions C07_surrounding_junk_irrelevant.
 Print Assumptions C07_get_normalized_hostname.
 Print Assumptions C07_get_fingerprinted_hostname.
